@@ -23,7 +23,8 @@ theorem C05_accept_implies_mac (F : Perm) (s0 : Adss.Share) (rest : List Adss.Sh
     c.thr = s0.thr ∧ s0.J = (Strobe.sendMac F (macTranscript F none c.thr c.M c.R) s0.J.length).2 ∧
     ∃ key, Sharks.recover s0.thr ((s0 :: rest).map (·.S)) = .ok key ∧ Params.adssKeyLen ≤ key.length ∧
       c.M = (Strobe.recvEnc F (encKey F (key.take Params.adssKeyLen)) s0.C).2 ∧
-      c.R = (Strobe.recvEnc F (Strobe.recvEnc F (encKey F (key.take Params.adssKeyLen)) s0.C).1 s0.D).2 :=
+      c.R = (Strobe.recvEnc F (Strobe.recvEnc F (encKey F (key.take Params.adssKeyLen)) s0.C).1 s0.D).2 ∧
+      key.take Params.adssKeyLen = keyAfterMac F c.thr c.M c.R s0.J.length :=
   recover_ok_mac F s0 rest c h
 
 theorem C05_never_panics (F : Perm) (shares : List Adss.Share) (w : String) :
@@ -76,7 +77,61 @@ theorem C05_tag_tamper_rejected (F : Perm) (fuel : Nat) (t : Nat) (ht : 1 ≤ t)
   rw [if_neg]
   intro hcon
   apply hJ'
-  rw [hcon, hl, hJ]; rfl
+  rw [hcon.1, hl, hJ]; rfl
+
+/-- (U) **The interpolated key is bound too.** Whatever the collection: if `recover` accepts, the key
+its shares interpolate to IS the key the transcript of the returned `(threshold, M, R)` derives
+(`Commune::verify` compares them since the repair recorded in known_findings.json). -/
+theorem C05_accept_binds_key (F : Perm) (s0 : Adss.Share) (rest : List Adss.Share) (c : Commune)
+    (hl : s0.J.length = 64) (h : Adss.recover F (s0 :: rest) = .ok c) :
+    ∃ key, Sharks.recover s0.thr ((s0 :: rest).map (·.S)) = .ok key ∧
+      key.take Params.adssKeyLen = keyOf F none c.thr c.M c.R := by
+  obtain ⟨_, _, key, hk, _, _, _, hkey⟩ := recover_ok_mac F s0 rest c h
+  refine ⟨key, hk, ?_⟩
+  rw [hkey, hl]; rfl
+
+/-- (R) altered Shamir shares: if the first share carries the honest tag and threshold of `(t, M, R)`
+but the collection interpolates to ANOTHER key than that sharing's, acceptance is a MAC collision -
+the shared triple itself can no longer come back -/
+theorem C05_wrong_key_rejected_or_collision (F : Perm) (t : Nat) (M R : Bytes) (s0 : Adss.Share)
+    (rest : List Adss.Share) (hthr : s0.thr = t) (hJ : s0.J = macOf F none t M R) (key : Bytes)
+    (hk : Sharks.recover s0.thr ((s0 :: rest).map (·.S)) = .ok key)
+    (hne : key.take Params.adssKeyLen ≠ keyOf F none t M R) (c : Commune)
+    (h : Adss.recover F (s0 :: rest) = .ok c) :
+    c ≠ ⟨t, M, R⟩ ∧ MacCollision F (c.thr, c.M, c.R) (t, M, R) := by
+  have hl : s0.J.length = 64 := by rw [hJ]; exact macOf_length F none t M R
+  obtain ⟨key', hk', hkey⟩ := C05_accept_binds_key F s0 rest c hl h
+  rw [hk] at hk'; injection hk' with hk'; subst hk'
+  have hc : c ≠ ⟨t, M, R⟩ := by
+    intro he; subst he; exact hne hkey
+  rcases C05_message_or_collision F t M R s0 rest hthr hJ c h with h1 | h1
+  · exact absurd h1 hc
+  · exact ⟨hc, h1⟩
+
+/-- (U) **nothing to decrypt, still bound**: with EMPTY encrypted message and coins (a sharing of the
+empty message with empty coins) the key is used for nothing, and before the repair any alteration
+of the Shamir shares was accepted; now a collection that interpolates to another key than the
+sharing's is rejected unconditionally -/
+theorem C05_empty_sharing_wrong_key_rejected (F : Perm) (t : Nat) (s0 : Adss.Share) (rest : List Adss.Share)
+    (hthr : s0.thr = t) (hC : s0.C = []) (hD : s0.D = []) (hJ : s0.J = macOf F none t [] []) (key : Bytes)
+    (hk : Sharks.recover s0.thr ((s0 :: rest).map (·.S)) = .ok key)
+    (hne : key.take Params.adssKeyLen ≠ keyOf F none t [] []) (c : Commune) :
+    Adss.recover F (s0 :: rest) ≠ .ok c := by
+  intro h
+  obtain ⟨hct, _, key', hk', _, hM, hR, _⟩ := recover_ok_mac F s0 rest c h
+  have hl : s0.J.length = 64 := by rw [hJ]; exact macOf_length F none t [] []
+  obtain ⟨key'', hk'', hkey⟩ := C05_accept_binds_key F s0 rest c hl h
+  rw [hk] at hk''; injection hk'' with hk''; subst hk''
+  have hM' : c.M = [] := by
+    rw [hM, hC]
+    have := Strobe.recvEnc_length F (encKey F (key'.take Params.adssKeyLen)) []
+    exact List.eq_nil_of_length_eq_zero this
+  have hR' : c.R = [] := by
+    rw [hR, hD]
+    have := Strobe.recvEnc_length F (Strobe.recvEnc F (encKey F (key'.take Params.adssKeyLen)) s0.C).1 []
+    exact List.eq_nil_of_length_eq_zero this
+  rw [hct, hthr, hM', hR'] at hkey
+  exact hne hkey
 
 /-- `recv_enc` is injective in the ciphertext: different ciphertexts decrypt to different messages -/
 theorem recvEnc_injective (F : Perm) (s : Strobe) (c c' : Bytes)
